@@ -133,8 +133,12 @@ func TestC12(t *testing.T) {
 			afterClose(t, r, i)
 		}
 		updaterStorm(t, r)
+		emptyValues(t, r)
+		for i := 0; i < r.N(12, 90); i++ {
+			idleLookupsAcrossAPoll(t, r, i)
+		}
 	}
-	r.Require("rollback_polls_after_a_failed_poll", "handle_reads_during_updater_storm", "reads_after_close_with_cache_fault", "rollback_polls", "handles_from_racing_lookups", "reads_validated", "reads_after_close", "polls_completed", "lookups_during_reads", "expiry_sweeps", "parked_probes_completed", "reader_serial_transitions", "read_after_poll_checks", "handles_obtained_during_poll")
+	r.Require("idle_lookups_across_a_poll", "empty_value_reads", "rollback_polls_after_a_failed_poll", "handle_reads_during_updater_storm", "reads_after_close_with_cache_fault", "rollback_polls", "handles_from_racing_lookups", "reads_validated", "reads_after_close", "polls_completed", "lookups_during_reads", "expiry_sweeps", "parked_probes_completed", "reader_serial_transitions", "read_after_poll_checks", "handles_obtained_during_poll")
 	r.Rule("stress repetitions: 16 reader goroutines over handles of 3 declared + up to 4 looked-up secrets, concurrent with a background poller on a fast ticker, explicit Refresh callers, a service that keeps installing new values, lookups of fresh names, expiry sweeps driven by an injected clock, then Close with readers continuing; every read validated. Parked-request probes: while a poll/lookup/initial request is parked in the service, every handle is called 100 times. Distinct = (reader serial transition kind x concurrent event) and probe kinds")
 }
 
@@ -966,4 +970,134 @@ loop:
 	case <-time.After(5 * time.Second):
 		witness("readers, getters and the refresher do not come to an end")
 	}
+}
+
+// idleLookupsAcrossAPoll: an undeclared secret obtained by a lookup, its handle kept but not called for longer
+// than the expiry age (the clock is the store's own TimeNow). Then the program looks the name up again - and
+// meanwhile the service moves on and a poll completes. Whatever the second lookup does, once that poll has
+// completed every handle of the name returns the poll's value or a newer one; in particular a reply that was
+// slow on its way back must not put the older value under the handles again.
+func idleLookupsAcrossAPoll(t *testing.T, r *evid.Run, idx int) {
+	r.Eval(1)
+	w := &world{svc: fakesvc.New(), rng: rand.New(rand.NewPCG(uint64(idx), 17)), ver: map[string]uint32{}, served: map[string]map[uint64]string{}}
+	for _, n := range []string{"i/declared", "i/idle"} {
+		w.bump(n)
+	}
+	var clock atomic.Int64
+	clock.Store(1_700_000_000)
+	var armed atomic.Bool
+	release := make(chan struct{})
+	parked := make(chan struct{}, 4)
+	w.svc.Behave = func(q *fakesvc.Req) fakesvc.Behaviour {
+		if armed.Load() && q.Name == "i/idle" && !q.Cond {
+			parked <- struct{}{}
+			return fakesvc.Behaviour{Hold: release, Snapshot: true}
+		}
+		return fakesvc.Behaviour{}
+	}
+	cache := &fakesvc.MonCache{}
+	st, err := setec.NewStore(context.Background(), setec.StoreConfig{Client: w.svc, Secrets: []string{"i/declared"}, AllowLookup: true, Cache: cache,
+		ExpiryAge: time.Hour, PollInterval: -1, Logf: func(string, ...any) {}, TimeNow: func() time.Time { return time.Unix(clock.Load(), 0) }})
+	if err != nil {
+		t.Fatalf("NewStore: %v", err)
+	}
+	defer st.Close()
+	h1, err := st.LookupSecret(context.Background(), "i/idle")
+	if err != nil {
+		t.Fatalf("lookup: %v", err)
+	}
+	idle := []int64{30 * 60, 2 * 3600, 40 * 24 * 3600}[idx%3] // half an hour (not idle), two hours, forty days
+	clock.Add(idle)
+	armed.Store(true)
+	type lres struct {
+		h   setec.Secret
+		err error
+	}
+	lookupDone := make(chan lres, 1)
+	go func() { h, err := st.LookupSecret(context.Background(), "i/idle"); lookupDone <- lres{h, err} }()
+	var second *lres
+	select {
+	case <-parked: // the store went to the service for it: its reply (the value of now) is on its way
+	case l := <-lookupDone:
+		second = &l
+	case <-time.After(20 * time.Second):
+		r.Inconclusive(fmt.Sprintf("idle lookup %d: neither answered nor asking the service after 20 s", idx))
+		close(release)
+		return
+	}
+	// the service moves on; a poll completes
+	serial := w.bump("i/idle")
+	if err := st.Refresh(context.Background()); err != nil {
+		r.Violation("poll-fails", idx, fmt.Sprintf("idle lookup %d: Refresh: %v", idx, err), nil)
+	}
+	close(release)
+	if second == nil {
+		l := <-lookupDone
+		second = &l
+	}
+	armed.Store(false)
+	r.Count("idle_lookups_across_a_poll", 1)
+	r.Distinct(fmt.Sprintf("idle lookup, handle idle for %ds", idle))
+	if second.err != nil || second.h == nil {
+		r.Violation("lookup-of-known-name-fails", idx, fmt.Sprintf("idle lookup %d: the second LookupSecret of a name the store holds failed: %v", idx, second.err), nil)
+		return
+	}
+	for hi, h := range []setec.Secret{h1, second.h, st.Secret("i/idle")} {
+		name, got, ok := parse(h.Get())
+		if !ok || name != "i/idle" || !w.wasSet("i/idle", got, h.Get()) {
+			r.Violation("torn-value", idx, fmt.Sprintf("idle lookup %d: handle %d returned an invalid value", idx, hi), nil)
+			return
+		}
+		if got < serial {
+			r.Violation("older-value-after-completed-poll", idx, fmt.Sprintf("idle lookup %d (handle idle for %d s, expiry age 1 h): a poll completed after the service had moved to serial %d, and afterwards handle %d of %q returns serial %d - an older value than the completed poll's (a second LookupSecret of the same name overlapped the poll)", idx, idle, serial, hi, "i/idle", got), nil)
+			return
+		}
+	}
+}
+
+// emptyValues: the active version of a secret becomes the empty value (a feature switched off, a password
+// cleared). Handles obtained before and after return it like any other value, as bytes and as a string.
+func emptyValues(t *testing.T, r *evid.Run) {
+	svc := fakesvc.New()
+	svc.Set("e/switch", 1, []byte("on"))
+	svc.Set("e/other", 1, []byte("x"))
+	st, err := setec.NewStore(context.Background(), setec.StoreConfig{Client: svc, Secrets: []string{"e/switch"}, AllowLookup: true, PollInterval: -1, Logf: func(string, ...any) {}})
+	if err != nil {
+		t.Fatalf("NewStore: %v", err)
+	}
+	defer st.Close()
+	before := st.Secret("e/switch")
+	vals := [][]byte{{}, []byte("on-again"), nil, {}, []byte("z")}
+	for i, v := range vals {
+		svc.Set("e/switch", uint32(i+2), v)
+		if err := st.Refresh(context.Background()); err != nil {
+			r.Violation("poll-fails", -1, fmt.Sprintf("empty values: Refresh: %v", err), nil)
+			return
+		}
+		looked, lerr := st.LookupSecret(context.Background(), "e/switch")
+		if lerr != nil {
+			r.Violation("lookup-of-known-name-fails", -1, lerr.Error(), nil)
+			return
+		}
+		for hi, h := range []setec.Secret{before, st.Secret("e/switch"), looked} {
+			r.Eval(1)
+			r.Count("empty_value_reads", 1)
+			var b []byte
+			var s string
+			if p := func() (p any) {
+				defer func() { p = recover() }()
+				b = h.Get()
+				s = h.GetString()
+				return nil
+			}(); p != nil {
+				r.Violation("handle-panics", -1, fmt.Sprintf("after a poll installed version %d of %q, a value of %d bytes, calling handle %d panics: %v", i+2, "e/switch", len(v), hi, p), nil)
+				return
+			}
+			if string(b) != string(v) || s != string(v) {
+				r.Violation("older-value-after-completed-poll", -1, fmt.Sprintf("after a poll installed version %d (%q), handle %d returns %q / %q", i+2, v, hi, b, s), nil)
+				return
+			}
+		}
+	}
+	r.Distinct("empty values through handles")
 }
